@@ -47,7 +47,7 @@ func (c14) Describe() engine.Info {
 			"Oracle: after every cycle the set of requests seen (IF bits 0-1, cleared by the observer) equals the set predicted by the reference counter: VBlank once at the start of line 144; HBlank source at each mode-0 entry; VBlank source at line 144; OAM source at the start of lines 0-143 (line 144 and the switch-on instant: either); LYC source at the start of the line LY becomes LYC (switch-on instant with LYC=0: either); nothing while off. Signature = (source, request kind, line class, after-switch-on?)." +
 			" Two thirds of the scenarios add video noise (objects, scroll/window/palette writes around mode boundaries, LCDC low-bit rewrites, the constant LYC stored again, also inside its own line). Environment dimensions as C12.",
 		Assumptions:    []string{"only single-source configurations are judged (STAT line blocking between sources is outside the statement)", "LYC is constant during a run"},
-		RequiredProbes: []string{"stat_written_while_off", "vblank_request", "stat_hblank", "stat_vblank", "stat_oam", "stat_lyc", "lcd_switched", "oam_request_line0_after_vblank"},
+		RequiredProbes: []string{"request_while_still_flagged", "stat_written_while_off", "vblank_request", "stat_hblank", "stat_vblank", "stat_oam", "stat_lyc", "lcd_switched", "oam_request_line0_after_vblank"},
 		RealComponents: realComponents, StubComponents: stubComponents,
 		Sweeps: []string{"LYC source x every LYC value (index-enumerated)"},
 	}
@@ -117,6 +117,30 @@ func (c14) Generate(r *engine.Rand, index int, tier string) *engine.Scenario {
 		genVideoNoise(r, sc, total, r.Range(2, 40), [][2]int{{0xff45, int(lyc)}})
 	}
 	sc.Cycles = total
+	if index%4 == 1 {
+		for i, n := 0, r.Range(1, 3); i < n; i++ {
+			at := uint64(r.Intn(int(total)))
+			if r.Bool() {
+				// inside (or at the edges of) the line on which LY equals LYC
+				at = uint64(1 + int(lyc)*114 - 2 + r.Range(-3, 116) + 17556*r.Intn(int(total/17556)+1))
+				if at >= total {
+					at = uint64(r.Intn(int(total)))
+				}
+			}
+			sc.Events = append(sc.Events, engine.Event{At: at, K: "bus_w", A: 0xff41, V: engine.Pick(r, []uint8{0x08, 0x10, 0x20, 0x40, 0x40, 0x00}) | r.Byte()&0x87, S: "select"})
+		}
+		sortEvents(sc.Events)
+		for i := 1; i < len(sc.Events); i++ {
+			if sc.Events[i].At <= sc.Events[i-1].At {
+				sc.Events[i].At = sc.Events[i-1].At + 1
+			}
+		}
+	}
+	if index%7 == 3 {
+		// nobody acknowledges the requests (a guest that polls LY or STAT instead): flags stay set
+		sc.Class = "frames-unacknowledged"
+		sc.SetP("no_ack", 1)
+	}
 	return sc
 }
 
@@ -136,30 +160,55 @@ func (c14) Execute(sc *engine.Scenario) *engine.Result {
 	var ref dmgref.PPUTiming
 	ref.SwitchOn()
 	srcName := "none"
-	switch {
-	case stat&0x08 != 0:
-		srcName = "hblank"
-	case stat&0x10 != 0:
-		srcName = "vblank"
-	case stat&0x20 != 0:
-		srcName = "oam"
-	case stat&0x40 != 0:
-		srcName = "lyc"
+	setSrc := func() {
+		srcName = "none"
+		switch {
+		case stat&0x08 != 0:
+			srcName = "hblank"
+		case stat&0x10 != 0:
+			srcName = "vblank"
+		case stat&0x20 != 0:
+			srcName = "oam"
+		case stat&0x40 != 0:
+			srcName = "lyc"
+		}
 	}
+	setSrc()
 	dg := engine.NewDigest()
 	ei := 0
 	ok := true
 	sinceOn := 0
+	realStat := stat
+	noAck := sc.P("no_ack", 0) != 0
+	held := uint8(0)
 	m.OnCycle = func() {
 		ev := ref.Tick()
 		sinceOn++
 		iff := m.IRQ.ReadIF()
 		gotV, gotS := iff&1 != 0, iff&2 != 0
-		if gotV {
-			m.IRQ.ResetVblank()
-		}
-		if gotS {
-			m.IRQ.ResetStat()
+		heldV, heldS := false, false
+		if noAck {
+			// nobody acknowledges: a request flag that is set stays set (a request made again changes
+			// nothing), and a flag appears only when its request is made
+			if lost := held &^ iff & 3; lost != 0 {
+				res.Fail("C14/unacknowledged-request-withdrawn", m.N, "IF went from %02x to %02x although nothing acknowledges requests (reference line %d position %d)", held|0xe0, iff, ref.Line, ref.Pos)
+				ok = false
+				m.Stop()
+				return
+			}
+			heldV, heldS = held&1 != 0, held&2 != 0
+			if heldV && ev.VBlankStart {
+				res.Probe("request_while_still_flagged")
+			}
+			gotV, gotS = gotV && !heldV, gotS && !heldS // newly flagged in this cycle
+			held = iff & 3
+		} else {
+			if gotV {
+				m.IRQ.ResetVblank()
+			}
+			if gotS {
+				m.IRQ.ResetStat()
+			}
 		}
 		dg.Byte(iff)
 		wantV := ev.VBlankStart
@@ -180,11 +229,11 @@ func (c14) Execute(sc *engine.Scenario) *engine.Result {
 		cls := func(what string) string { return fmt.Sprintf("C14/%s/%s", what, srcName) }
 		where := fmt.Sprintf("reference line %d position %d (LCD on=%v, LYC=%d, STAT select=%02x)", ref.Line, ref.Pos, ref.On, lyc, stat&0x78)
 		switch {
-		case wantV && !gotV:
+		case wantV && !gotV && !heldV:
 			res.Fail("C14/vblank-missing", m.N, "no VBlank request at the start of line 144; %s", where)
 		case !wantV && gotV:
 			res.Fail("C14/vblank-unexpected", m.N, "VBlank requested; %s", where)
-		case wantS && !gotS:
+		case wantS && !gotS && !heldS:
 			res.Fail(cls("stat-missing"), m.N, "no STAT request at %s; %s", why, where)
 		case gotS && !wantS && !mayS:
 			res.Fail(cls("stat-unexpected"), m.N, "STAT requested; %s", where)
@@ -227,17 +276,34 @@ func (c14) Execute(sc *engine.Scenario) *engine.Result {
 					res.Probe("lcd_switched")
 					res.Sig(fmt.Sprintf("%s/off/mode%d", srcName, ref.Mode()))
 				} else if !was && now {
+					if realStat != stat {
+						m.Write(0xff41, stat) // the source selected last is in force when the LCD comes on
+						realStat = stat
+					}
 					ref.SwitchOn()
 					sinceOn = 0
 					res.Probe("lcd_switched")
 				}
 				res.Fault("lcdc_write")
 			}
+			if ev.A == 0xff41 && ev.S == "select" {
+				// another single source (or none) is selected while the LCD is on: requests follow the new
+				// source's condition from its next rising edge on; the store itself requests nothing
+				stat = ev.V
+				realStat = ev.V
+				setSrc()
+				if ref.On {
+					res.Probe("source_selected_while_on")
+				}
+				m.Write(ev.A, ev.V)
+				continue
+			}
 			if ev.A == 0xff41 {
 				if ref.On {
 					continue // only while the LCD is off (a minimised schedule may have lost the switch-off)
 				}
 				res.Probe("stat_written_while_off")
+				realStat = ev.V
 			}
 			if ev.A == 0xff45 {
 				ev.V = lyc // LYC is constant: the same value is stored again
